@@ -306,6 +306,45 @@ func c15Adapter(c *Ctx) {
 		if !okA {
 			why = fmt.Sprintf("asserted writer used: %v, same writer wrapped: %v", sawAssert, sawWrap)
 		}
+		// and the right way round: the adapter is chosen where the assertion failed, the asserted value where it held
+		if okA {
+			for i, e := range ph.Edges {
+				pred := ph.Block().Preds[i]
+				_, isWrap := e.(*ssa.MakeInterface)
+				found := false
+				for d := pred; d != nil && !found; d = d.Idom() {
+					iff, isIf := d.Instrs[len(d.Instrs)-1].(*ssa.If)
+					if !isIf || len(d.Succs) != 2 {
+						continue
+					}
+					ex, isE := iff.Cond.(*ssa.Extract)
+					if !isE || ex.Index != 1 {
+						continue
+					}
+					if ta, isT := ex.Tuple.(*ssa.TypeAssert); !isT || ta.X != ssa.Value(s.Writer) {
+						continue
+					}
+					found = true
+					// which side of the test does this edge come from?
+					side := -1
+					for k, sb := range d.Succs {
+						if sb == ph.Block() && d == pred {
+							side = k
+						} else if sb == pred || (sb.Dominates(pred) && len(sb.Preds) == 1) {
+							side = k
+						}
+					}
+					if isWrap && side != 1 || !isWrap && side != 0 {
+						okA = false
+						why = "the adapter is chosen where the destination HAS a WriteString method and nothing where it has none (the comma-ok test is the wrong way round): a plain io.Writer leaves the destination nil"
+					}
+				}
+				if !found {
+					okA = false
+					why = "the choice between the asserted writer and the adapter does not depend on the comma-ok result of the assertion"
+				}
+			}
+		}
 	}
 	R.Check(okA, "C15.R3", "writer-selection", "(*Policy).sanitize: destination selection", c.P.Pos(s.Fn.Pos()), "w.(stringWriterWriter) when available, else asStringWriter{w}", why)
 	ad := adapterWriteString(c)
